@@ -23,6 +23,10 @@ func AssignValue(src, dst reflect.Value) error {
 }
 
 func castValue(t reflect.Type, v reflect.Value) (reflect.Value, error) {
+	if !v.IsValid() {
+		// null: the zero value of the destination
+		return reflect.Zero(t), nil
+	}
 	switch t.Kind() {
 	case reflect.Int:
 		vv, err := castInt(v)
@@ -107,6 +111,9 @@ func castValue(t reflect.Type, v reflect.Value) (reflect.Value, error) {
 }
 
 func castInt(v reflect.Value) (reflect.Value, error) {
+	if !v.IsValid() {
+		return nilValue, fmt.Errorf("failed to cast to int64 from null")
+	}
 	switch v.Type().Kind() {
 	case reflect.Int, reflect.Int8, reflect.Int16, reflect.Int32, reflect.Int64:
 		return v, nil
@@ -148,6 +155,9 @@ func castInt(v reflect.Value) (reflect.Value, error) {
 }
 
 func castUint(v reflect.Value) (reflect.Value, error) {
+	if !v.IsValid() {
+		return nilValue, fmt.Errorf("failed to cast to uint64 from null")
+	}
 	switch v.Type().Kind() {
 	case reflect.Int, reflect.Int8, reflect.Int16, reflect.Int32, reflect.Int64:
 		return reflect.ValueOf(uint64(v.Int())), nil
@@ -189,6 +199,9 @@ func castUint(v reflect.Value) (reflect.Value, error) {
 }
 
 func castString(v reflect.Value) (reflect.Value, error) {
+	if !v.IsValid() {
+		return nilValue, fmt.Errorf("failed to cast to string from null")
+	}
 	switch v.Type().Kind() {
 	case reflect.Int, reflect.Int8, reflect.Int16, reflect.Int32, reflect.Int64:
 		return reflect.ValueOf(fmt.Sprint(v.Int())), nil
@@ -226,6 +239,9 @@ func castString(v reflect.Value) (reflect.Value, error) {
 }
 
 func castBool(v reflect.Value) (reflect.Value, error) {
+	if !v.IsValid() {
+		return nilValue, fmt.Errorf("failed to cast to bool from null")
+	}
 	switch v.Type().Kind() {
 	case reflect.Int, reflect.Int8, reflect.Int16, reflect.Int32, reflect.Int64:
 		switch v.Int() {
@@ -282,6 +298,9 @@ func castBool(v reflect.Value) (reflect.Value, error) {
 }
 
 func castFloat(v reflect.Value) (reflect.Value, error) {
+	if !v.IsValid() {
+		return nilValue, fmt.Errorf("failed to cast to float64 from null")
+	}
 	switch v.Type().Kind() {
 	case reflect.Int, reflect.Int8, reflect.Int16, reflect.Int32, reflect.Int64:
 		return reflect.ValueOf(float64(v.Int())), nil
